@@ -151,6 +151,11 @@ class VisibilityGraph(InteractingNetworks):
         A = np.zeros((N, N), dtype=MASK)
 
         _visibility_relations_horizontal(x, N, A)
+        if self.missing_values:
+            #  missing samples block visibility as intermediate samples (NaN
+            #  comparisons fail); as end points they must stay isolated
+            A[self.missing_value_indices, :] = 0
+            A[:, self.missing_value_indices] = 0
         return A
 
     #
